@@ -17,14 +17,14 @@
 (***************************************************************************)
 EXTENDS Naturals, FiniteSets, Sequences, TLC
 CONSTANTS Threads, PinSyms, InitPin,
-          Dev      \* accepted deviations of the code as built (known findings): subset of {"EarlyVisible"}
+          Dev      \* accepted deviations of the code as built (known findings): subset of {"LogoutSplit"}
 
 VARIABLES login,   \* "none" | "user"
           nsess,   \* open sessions on the token
           pin,     \* the user PIN
           open,    \* per thread: has it a session
           pend     \* per thread: [st: "idle" | "inv" | "done", c, a, b, rv, out, lo]
-                   \* lo: another thread's logout took effect while the call was pending
+                   \* lo: a C_Logout call of another thread overlapped the call (in real time, not only its instant)
 vars == <<login, nsess, pin, open, pend>>
 
 Idle == [st |-> "idle", c |-> "", a |-> "", b |-> "", rv |-> "", out |-> "", lo |-> FALSE]
@@ -35,27 +35,27 @@ Calls == {"open", "close", "login", "logout", "sessinfo", "setpin", "createpriv"
 Inv(t, c, a, b) ==
     /\ pend[t].st = "idle" /\ c \in Calls
     /\ (c = "open" => ~open[t]) /\ (c # "open" => open[t])
-    /\ pend' = [pend EXCEPT ![t] = [st |-> "inv", c |-> c, a |-> a, b |-> b, rv |-> "", out |-> "", lo |-> FALSE]]
+    /\ pend' = [u \in Threads |->
+                   IF u = t THEN [st |-> "inv", c |-> c, a |-> a, b |-> b, rv |-> "", out |-> "",
+                                  lo |-> \E w \in Threads \ {t} : pend[w].st # "idle" /\ pend[w].c = "logout"]
+                   ELSE IF c = "logout" /\ pend[u].st # "idle" THEN [pend[u] EXCEPT !.lo = TRUE]
+                   ELSE pend[u]]
     /\ UNCHANGED <<login, nsess, pin, open>>
 
 StateName == IF login = "user" THEN "RW_USER" ELSE "RW_PUBLIC"
-\* (lout: the step logs the token out; the calls of the others that are in flight notice)
-DoneL(t, rv, out, lout) == pend' = [u \in Threads |-> IF u = t THEN [pend[t] EXCEPT !.st = "done", !.rv = rv, !.out = out]
-                                                      ELSE IF pend[u].st # "idle" /\ login = "user" /\ lout
-                                                           THEN [pend[u] EXCEPT !.lo = TRUE] ELSE pend[u]]
-Done(t, rv, out) == DoneL(t, rv, out, FALSE)
+Done(t, rv, out) == pend' = [pend EXCEPT ![t].st = "done", ![t].rv = rv, ![t].out = out]
 Lin(t) ==
     /\ pend[t].st = "inv"
     /\ LET c == pend[t].c  a == pend[t].a  b == pend[t].b IN
        CASE c = "open"   -> /\ nsess' = nsess + 1 /\ open' = [open EXCEPT ![t] = TRUE] /\ Done(t, "OK", "")
                             /\ UNCHANGED <<login, pin>>
          \* closing the last session of the token logs out
-         [] c = "close"  -> /\ nsess' = nsess - 1 /\ open' = [open EXCEPT ![t] = FALSE] /\ DoneL(t, "OK", "", nsess = 1)
+         [] c = "close"  -> /\ nsess' = nsess - 1 /\ open' = [open EXCEPT ![t] = FALSE] /\ Done(t, "OK", "")
                             /\ login' = (IF nsess = 1 THEN "none" ELSE login) /\ UNCHANGED pin
          [] c = "login"  -> IF login = "user" THEN Done(t, "USER_ALREADY_LOGGED_IN", "") /\ UNCHANGED <<login, nsess, pin, open>>
                             ELSE IF a = pin THEN login' = "user" /\ Done(t, "OK", "") /\ UNCHANGED <<nsess, pin, open>>
                             ELSE Done(t, "PIN_INCORRECT", "") /\ UNCHANGED <<login, nsess, pin, open>>
-         [] c = "logout" -> login' = "none" /\ DoneL(t, "OK", "", TRUE) /\ UNCHANGED <<nsess, pin, open>>
+         [] c = "logout" -> login' = "none" /\ Done(t, "OK", "") /\ UNCHANGED <<nsess, pin, open>>
          [] c = "sessinfo" -> Done(t, "OK", StateName) /\ UNCHANGED <<login, nsess, pin, open>>
          \* C_SetPIN(old, new) in a public or user session: only with the PIN that is current AT THAT INSTANT
          [] c = "setpin" -> IF a = pin THEN pin' = b /\ Done(t, "OK", "") /\ UNCHANGED <<login, nsess, open>>
@@ -64,10 +64,11 @@ Lin(t) ==
          [] c = "createpriv" -> /\ Done(t, IF login = "user" THEN "OK" ELSE "USER_NOT_LOGGED_IN", "")
                                 /\ UNCHANGED <<login, nsess, pin, open>>
 
-\* As built (known finding K18-early-visible): the private session object that C_CreateObject is building is already in
-\* the session object store; the logout of another thread purges it there and the creation fails with an error that no
-\* sequential order explains.
-PurgedByLogout(t, c, rv) == "EarlyVisible" \in Dev /\ c = "createpriv" /\ pend[t].lo /\ rv \notin {"OK", "USER_NOT_LOGGED_IN"}
+\* As built (known finding K18-logout-split): C_Logout is not one step.  It resets the login state first and purges the
+\* private session objects and the handles of private objects afterwards, with no lock spanning the two: a private
+\* session object that another thread is building meanwhile - even after logging in AGAIN - is purged, and its creation
+\* fails with an error that no sequential order explains.
+PurgedByLogout(t, c, rv) == "LogoutSplit" \in Dev /\ c = "createpriv" /\ pend[t].lo /\ rv \notin {"OK", "USER_NOT_LOGGED_IN"}
 Ret(t, c, rv, out) ==
     /\ pend[t].st = "done" /\ pend[t].c = c
     /\ (pend[t].rv = rv /\ pend[t].out = out) \/ PurgedByLogout(t, c, rv)
